@@ -405,10 +405,12 @@ impl World {
             w.objs = o;
             w.pre_violated = pre;
         }
+        let my_run = crate::runner::current_run();
         let run = |mut w: World, o: Value, me: u8, g: std::sync::Arc<crate::simrng::Gate>| {
             std::thread::Builder::new()
                 .stack_size(64 << 20)
                 .spawn(move || {
+                    crate::runner::set_current_run(my_run);
                     crate::simrng::gate_install(g.clone(), me);
                     g.acquire(me);
                     let r = std::panic::catch_unwind(std::panic::AssertUnwindSafe(|| w.exec(o)));
